@@ -75,7 +75,8 @@ where
         delimited(
             (one_of(';'), space0),
             alt((
-                metadata_tags,
+                // tags must occupy the whole line, otherwise the line is a comment.
+                terminated(metadata_tags, peek(character::line_ending_or_eof)),
                 metadata_kv,
                 till_line_ending.map(|s: &str| {
                     if s.contains(':') {
